@@ -1219,6 +1219,88 @@ func runC19(c *Ctx) {
 		c.Eval(true, fmt.Sprint("ordered", l.sleep, d, j))
 	})
 
+	// E2. a work-hours rule that reaches the client over the wire (the MvTime order, handler
+	// muxHandleInternal -> WorkHours.UnmarshalStream) or through the local setter SetWorkHours: the rule
+	// in force afterwards is the rule ordered, field by field, and it decides the way the ordered rule
+	// decides; a rule the setter rejects (Verify error) leaves the rule in force untouched.
+	c.Cases("ordered-work", c.N(500, 6000), func(r *Rng, i int) {
+		l := &c19LoopCase{sleep: int64(time.Second), now: 1709500000000000000 + int64(r.Intn(1000000))*1000000}
+		e := l.env()
+		e.install()
+		defer c19Uninstall()
+		x, cancel := context.WithCancel(context.Background())
+		defer cancel()
+		e.cancel = cancel
+		var w0 *cfg.WorkHours
+		if r.Chance(60) {
+			v := c19GenRule(r)
+			for !c19Valid(v) {
+				v = c19GenRule(r)
+			}
+			w0 = &v
+		}
+		e.h = c2.VerifC19New(x, e, e, c19ID, time.Duration(l.sleep), 0, time.Time{}, w0)
+		defer e.h.StopTick()
+		w := c19GenRule(r)
+		same := func(a, b *cfg.WorkHours) bool {
+			if a == nil || b == nil || a.Empty() || b.Empty() {
+				return (a == nil || a.Empty()) == (b == nil || b.Empty())
+			}
+			return *a == *b
+		}
+		tok := func(a *cfg.WorkHours) string {
+			if a == nil {
+				return "none"
+			}
+			return c19RuleTok(a, ",")
+		}
+		in := map[string]interface{}{"in_force": tok(w0), "ordered": c19RuleTok(&w, ",")}
+		want := &w
+		switch i % 3 {
+		case 0, 1: // over the wire
+			in["path"] = "MvTime order"
+			err := e.h.Order(task.WorkHours(w.Days, w.StartHour, w.StartMin, w.EndHour, w.EndMin))
+			switch {
+			case err != nil && c19Valid(w):
+				c.Fail("order", "order:work-handler-error", "the MvTime handler rejected a valid rule: "+err.Error(), in)
+				return
+			case err != nil:
+				want = w0
+				c.Count("ordered-work:wire-rejected")
+			}
+		default: // the local setter
+			in["path"] = "SetWorkHours"
+			v := w
+			err := e.h.SetWork(&v)
+			if (w.Verify() != nil) != (err != nil && err != c2.ErrNoTask) {
+				c.Fail("order", "order:work-setter-verdict", fmt.Sprintf("SetWorkHours returned %v for a rule Verify() judges %v", err, w.Verify()), in)
+				return
+			}
+			if w.Verify() != nil {
+				want = w0
+				c.Count("ordered-work:setter-rejected")
+			}
+		}
+		got := e.h.Work()
+		in["now_in_force"] = tok(got)
+		if !same(got, want) {
+			c.Fail("order", "order:work-rule", fmt.Sprintf("the rule in force is %s, expected %s", tok(got), tok(want)), in)
+			c.Eval(true, fmt.Sprint("ordered-work", in))
+			return
+		}
+		// ... and it decides as the expected rule decides (model comparison on the rule in force)
+		if got != nil && want != nil {
+			off := c19Zones[r.Intn(len(c19Zones))]
+			dt := c19Dates[r.Intn(len(c19Dates))]
+			day := time.Date(dt[0], time.Month(dt[1]), dt[2]+r.Intn(7), 12, 0, 0, 0, c19Zone(off))
+			for _, n := range c19Instants(r, *want, day) {
+				c19WorkAt(c, e, *got, n, true)
+			}
+		}
+		c.Count("ordered-work:" + in["path"].(string))
+		c.Eval(true, fmt.Sprint("ordered-work", in))
+	})
+
 	// F. the first connection (connectContextInner)
 	c.Cases("first", c.N(600, 6000), func(r *Rng, i int) {
 		l := c19GenLoop(r)
